@@ -366,10 +366,12 @@ namespace BitSerializer::Convert::Detail
 	{
 		if (pos != endPos)
 		{
-			if (utc.Year >= 10000) {
-				*pos++ = '+';
+			// The sign is printed separately to keep at least 4 digits of the year (e.g. -0001)
+			if (utc.Year >= 10000 || utc.Year < 0) {
+				*pos++ = utc.Year < 0 ? '-' : '+';
 			}
-			const size_t outSize = snprintf(pos, endPos - pos, "%04" PRId64 "-%02d-%02dT%02d:%02d:%02d", utc.Year, utc.Month, utc.Day, utc.Hour, utc.Min, utc.Sec);
+			const uint64_t absYear = utc.Year < 0 ? 0 - static_cast<uint64_t>(utc.Year) : static_cast<uint64_t>(utc.Year);
+			const size_t outSize = snprintf(pos, endPos - pos, "%04" PRIu64 "-%02d-%02dT%02d:%02d:%02d", absYear, utc.Month, utc.Day, utc.Hour, utc.Min, utc.Sec);
 			if (outSize > 0)
 			{
 				pos += outSize;
